@@ -42,7 +42,7 @@ func main() {
 		"(boundary lengths 0/1/127/128/255/256/32767 within the decoder's limits, optionals present/absent, counts 0..3/127/128/256, small components/NBT/brigadier trees); " +
 		"a (type, version, value) whose encoder rejects the value is skipped and counted; distinct = distinct case term; non-trivial = non-empty body"
 
-	frag, haveFrag := fragmentNames()
+	frag, haveFrag := pktgen.FragmentNames()
 	regs := pktgen.All()
 	sample := map[proto.Protocol]bool{}
 	for _, v := range pktgen.SampleVersions(f.Tier == "thorough") {
@@ -105,7 +105,7 @@ func main() {
 			dumpIt := !haveFrag || frag[tn]
 			env1 := "FX"
 			if dumpIt {
-				env1 = pktgen.Dump(pk)
+				env1 = pktgen.DumpAt(pk, r.Proto)
 			}
 			p2 := r.NewPacket()
 			rd := bytes.NewReader(b1.Bytes())
@@ -119,7 +119,7 @@ func main() {
 			case derr == nil:
 				dec = fmt.Sprintf("(DecOk %d%%N)", rd.Len())
 				if dumpIt {
-					env2 = pktgen.Dump(p2)
+					env2 = pktgen.DumpAt(p2, r.Proto)
 				}
 				var b2 bytes.Buffer
 				if err := util.RecoverFunc(func() error { return p2.Encode(r.Ctx(), &b2) }); err == nil {
